@@ -589,6 +589,59 @@ func c14Special(c *core.Ctx, helper string, key gen.KeyPair) {
 				}
 			}
 		}
+		// (1b) executables the kernel refuses to start for a reason other than "not found": still
+		// open for writing somewhere (text file busy), not executable, empty, with an interpreter
+		// that does not exist - through RunCommand and through InTotoRun
+		if c.Shard == 1%c.NShards {
+			exeDir := filepath.Join(c.WorkDir, fmt.Sprintf("special-exe-%v", dsse))
+			mkdirs(exeDir)
+			busy := filepath.Join(exeDir, "busy")
+			copyFile(helper, busy)
+			os.Chmod(busy, 0755)
+			noX := filepath.Join(exeDir, "no-x-bit")
+			copyFile(helper, noX)
+			os.Chmod(noX, 0644)
+			empty := filepath.Join(exeDir, "empty")
+			os.WriteFile(empty, nil, 0755)
+			badInterp := filepath.Join(exeDir, "bad-interpreter")
+			os.WriteFile(badInterp, []byte("#!/no/such/interpreter\necho x\n"), 0755)
+			for _, u := range []struct{ name, path string }{{"text-file-busy", busy}, {"no-x-bit", noX}, {"empty-file", empty}, {"bad-interpreter", badInterp}} {
+				for _, via := range []string{"RunCommand", "InTotoRun"} {
+					id := fmt.Sprintf("special/unstartable-executable/%s/%s/dsse=%v", u.name, via, dsse)
+					if !c.Want(id) {
+						continue
+					}
+					var holder *os.File
+					if u.name == "text-file-busy" {
+						// held open for writing for the whole call
+						holder, _ = os.OpenFile(u.path, os.O_WRONLY, 0)
+						if holder == nil {
+							continue
+						}
+					}
+					var err error
+					c.Begin(id)
+					pk := c.Guard(id, via, u.path, func() {
+						if via == "RunCommand" {
+							_, err = intoto.RunCommand([]string{u.path, "emit", "0"}, "")
+						} else {
+							_, err = intoto.InTotoRun("s", "", nil, nil, []string{u.path, "emit", "0"}, key.Priv, []string{"sha256"}, nil, nil, false, false, dsse)
+						}
+					})
+					c.End(id)
+					if holder != nil {
+						holder.Close()
+					}
+					c.Eval(1)
+					if !pk && err == nil {
+						c.Violation("a command that cannot be started ("+u.name+") is not reported as an error by "+via, id, map[string]any{"executable": u.name, "via": via, "dsse": dsse})
+					} else if !pk {
+						ok++
+						c.Class("special", "unstartable-executable", u.name, via, dsse)
+					}
+				}
+			}
+		}
 		// (2) the command's standard input is empty, whatever the caller's own standard input is
 		if c.Shard == 2%c.NShards {
 			id := fmt.Sprintf("special/standard-input/dsse=%v", dsse)
